@@ -305,8 +305,13 @@ impl ProofGraph {
             if changed && !node.valid {
                 self.stats.invalidations += 1;
 
-                // Get dependents and propagate recursively
-                let further_deps = node.dependents.clone();
+                // Get dependents and propagate recursively. `node.dependents` misses
+                // dependents inserted before this node existed, so also consult the
+                // reverse dependency index, which is always maintained.
+                let mut further_deps = node.dependents.clone();
+                if let Some(deps) = self.dependencies.get(dependent_handle) {
+                    further_deps.extend(deps.iter().copied());
+                }
                 for further_dep in further_deps {
                     self.propagate_invalidation(&further_dep, dependent_handle);
                 }
